@@ -5,6 +5,17 @@ ROOT = os.path.dirname(os.path.dirname(os.path.abspath(__file__)))
 
 # id -> (category, technique, level text, level note, design_ref)
 CHECKS = {
+ "C16": ("exploration",
+         "bounded-exhaustive enumeration of windows of consecutive doubles x float positions x types x three channels, and of structured objects, on the real (de)serialisers; bitwise oracle",
+         "2^13 (2^18) consecutive doubles after each of 10 anchors plus extremes, placed in every float position of every type, through JSON, the tagged entry point and bincode; structures: all week masks, union shapes, named strings, 6x3x3x11x5x2 curves (slice in quick), FX markets with histories, splines.",
+         "Trusted: bitwise comparison; only finite doubles; windows around ten anchors.",
+         "DESIGN.md §4 C16"),
+ "C20": ("exploration",
+         "bounded-exhaustive enumeration of constructor arguments, every i8 day count, every in-range month offset, csolve layouts and ALL single (and pairs of) JSON mutations, executed in a child process with crash attribution",
+         "Every argument combination of the listed small domains is executed under catch_unwind in a child process; a panic, an abnormal exit, or an Ok value violating its shape invariants is a violation. JSON: all single mutations of one valid document per type for both entry points, all pairs for documents up to 26 (44) nodes.",
+         "Trusted: the invariant predicates in harness/src/props/c20.rs; one valid document per type.",
+         "DESIGN.md §4 C20"),
+
  "C13": ("exploration",
          "bounded-exhaustive enumeration of sparsity patterns, row permutations and tall shapes x number types x taggings on the real dsolve/fdsolve; residual recomputed in a reference dual arithmetic",
          "Every zero/non-zero pattern up to 3x3 (4x4 complete in thorough), every row permutation of 4..5 (6)-dimensional systems, generator permutations up to 8x8, every tall shape up to 12x6, for f64 / Dual / Dual2 / Number and four variable taggings; the residual must vanish in value and every first and second derivative component.",
